@@ -107,8 +107,14 @@ memio_create(const char *path)
         for (i = 0; i < MEMIO_NFILES; i++)
             if (!memio_files[i].exists)
                 break;
-        if (i == MEMIO_NFILES)
+        if (i == MEMIO_NFILES) { /* model limit: harness sizing error, never a library verdict */
+            memio_overflow = 1;
+#ifndef H4V_NATIVE
+            __CPROVER_assert(0, "MEMIO: model file table too small (harness sizing error)");
+            __CPROVER_assume(0);
+#endif
             return -1;
+        }
         for (j = 0; j < MEMIO_NAMELEN - 1 && path[j]; j++)
             memio_files[i].name[j] = path[j];
         memio_files[i].name[j] = 0;
@@ -145,8 +151,14 @@ FN(fopen)(const char *path, const char *mode)
     for (s = 0; s < MEMIO_NSTRM; s++)
         if (!memio_strms[s].used)
             break;
-    if (s == MEMIO_NSTRM)
+    if (s == MEMIO_NSTRM) { /* model limit: harness sizing error, never a library verdict */
+        memio_overflow = 1;
+#ifndef H4V_NATIVE
+        __CPROVER_assert(0, "MEMIO: model stream table too small (harness sizing error)");
+        __CPROVER_assume(0);
+#endif
         return NULL;
+    }
     memio_strms[s].used     = 1;
     memio_strms[s].file     = f;
     memio_strms[s].pos      = 0;
@@ -260,7 +272,7 @@ FN(fwrite)(const void *ptr, size_t size, size_t n, FILE *fp)
     if (s->pos + (long)put > MEMIO_DISK_SZ && !memio_sparse) {
         /* model limit exceeded: harness sizing error, never a library verdict */
         memio_overflow = 1;
-#ifdef __CPROVER__
+#ifndef H4V_NATIVE
         __CPROVER_assert(0, "MEMIO: model disk too small (harness sizing error)");
         __CPROVER_assume(0);
 #endif
